@@ -79,6 +79,54 @@ func checkC18(c *core.Ctx) {
 		})
 	}
 	if loop == nil {
+		// even so: a loop over a list of import strings (in Generate, a helper or
+		// a closure) that appends to a slice of Generate's, with a `continue`
+		// ahead of the append, does not queue every import — and the edge of an
+		// import is added when its element is processed (R5). A file marked as
+		// seen when it is *queued* loses the edge of its second import.
+		for _, cand := range declClosure(p, pkg, gen, 2) {
+			ast.Inspect(cand.Body, func(n ast.Node) bool {
+				rs, ok := n.(*ast.RangeStmt)
+				if !ok {
+					return true
+				}
+				sl, ok := info.TypeOf(rs.X).Underlying().(*types.Slice)
+				if !ok {
+					return true
+				}
+				if b, ok := sl.Elem().Underlying().(*types.Basic); !ok || b.Info()&types.IsString == 0 {
+					return true
+				}
+				appendAt := -1
+				for j, st := range rs.Body.List {
+					if as, ok := st.(*ast.AssignStmt); ok && len(as.Lhs) == 1 && len(as.Rhs) == 1 {
+						l, isId := as.Lhs[0].(*ast.Ident)
+						ap, isCall := as.Rhs[0].(*ast.CallExpr)
+						if isId && isCall && wire.Canon(ap.Fun) == "append" && len(ap.Args) >= 1 && wire.Canon(ap.Args[0]) == l.Name {
+							if st, ok := info.TypeOf(l).Underlying().(*types.Slice); ok {
+								if _, isStruct := st.Elem().Underlying().(*types.Struct); isStruct {
+									appendAt = j
+									break
+								}
+							}
+						}
+					}
+				}
+				if appendAt < 0 {
+					return true
+				}
+				for _, st := range rs.Body.List[:appendAt] {
+					ast.Inspect(st, func(k ast.Node) bool {
+						if br, ok := k.(*ast.BranchStmt); ok && (br.Tok == token.CONTINUE || br.Tok == token.BREAK) {
+							c.Check("R5", "every import of a file just read is queued", p.Pos(br.Pos()), false,
+								"the `"+br.Tok.String()+"` at "+p.Pos(br.Pos())+" leaves the cycle of the loop over a file's imports before the import is queued: the edge of an import statement is added when its worklist element is processed, so an import that is not queued (a file already seen) contributes no edge and a cycle through it is not reported")
+						}
+						return true
+					})
+				}
+				return true
+			})
+		}
 		c.Undecide("the import worklist loop of File.Generate was not found")
 		importScenarioRules(c, p)
 		return
